@@ -909,7 +909,7 @@ PROPS = {
              " Every integer and boolean key of the settings sections (top level, http1, http2, quic, icmp, metrics: 30 keys by name, 5 by alias) is set in a file under each spelling the deserialiser accepts (table regenerated from settings.rs by the translator); the settings read from the file are written back and compared with the defaults - exactly the setting the key names must have moved, to the value given - and the moved fields are compared with the table the theorems keys_unambiguous and keys_name_their_fields are about"
              " One credentials list in three writes a user name twice, the second time right behind the first with another password: both pairs are read back and accepted",
         explanation="keys_unambiguous, keys_name_their_fields over the regenerated TT/Gen/SettingsKeys.lean; theorems decode_encode_basic, literal_verbatim, basic_plain_verbatim, load_ok_iff, empty_rejected, base64_injective, "
-                    "accepted_iff_listed, accepted_token_identifies_pair, refuses_to_start_iff about TT/Model/Creds.lean",
+                    "accepted_iff_listed, accepted_token_identifies_pair, refuses_to_start_iff, file_to_registry, sound_configuration_starts about TT/Model/Creds.lean",
         trusted=["toml_edit for everything outside single-line basic/literal strings (multi-line strings are outside the model)",
                  "the wizard and the client export use toml_edit's own string encoder: their round trips are exercised, not proved",
                  "base64 crate = the modelled standard padded alphabet (tied by the registry verdicts)"],
